@@ -118,6 +118,9 @@ theorem arc_nest {s : St α} {b : Bool} (o : ArcOut α) (h : Inv s b) :
           cases b <;> simp_all
         subst hb
         have he := emitQuads_nest _ quads h0
+        have h0' : Inv { ({ s with lastCtrl := s.cur } : St α) with cur := start } true := by
+          simpa [Inv] using h0
+        have he' := emitQuads_nest _ quads h0'
         cases near <;> simp_all [nestState]
     refine ⟨by simpa [arc] using key.1, ?_⟩
     obtain ⟨k1, k2⟩ := key.2
